@@ -182,6 +182,16 @@ def fixed_cases(tier):
          "subs": [{"key": 1, "how": "number", "i": 1, "j": 0}], "pair": {"op": "arg", "i": 0, "j": 0}},
         {**base, "expr": ["cls", "FormFactor", [["sym", "s_p"], ["sym", "m_p"], ["sym", "w_p"], ["lsym", "L"], ["num", "1"]], {}],
          "subs": [{"key": 3, "how": "number", "i": 1, "j": 0}], "mode": "subs", "pair": {"op": "arg", "i": 3, "j": 0}},
+        # a substitution that makes two symbolic pool values equal (y -> z) or equal to a literal one (-> 2, 1/2 ...):
+        # the folded sum keeps one term per pool entry, like the unfolded one (every key x every way x both modes)
+        *[
+            {**base, "expr": ["cls", "PoolSum", [["mul", ["pow", ["sym", "x"], 2], ["add", ["idx", "i"], ["sym", "x"]]]],
+                              {"indices": [["i", pool]]}],
+             "subs": [{"key": key, "how": how, "i": i, "j": j}], "mode": mode}
+            for pool in (["$y", "$z", "2"], ["$y", "1/2", "$z"])
+            for key in (1, 2) for how, i, j in (("merge", 0, 0), ("merge", 0, 1), ("number", 1, 0), ("number", 3, 0))
+            for mode in ("subs", "xreplace")
+        ],
     ]
 
 
